@@ -635,6 +635,16 @@ def known_ge(body, bb, a, b):
     # b = a' / c  or  a' - c  or  a' & m  with a' == a  (never larger than a for unsigned values)
     if pb.k == "bin" and pb.op in ("Div", "Sub", "BitAnd", "Shr", "Rem") and (_same_expr(pb.a, pa) or _same_len_now(pb.a, pa)):
         return True
+    # b = (a' / c) * c  or  min(a' / c, ..) * c  with a' == a: rounding a down to a multiple of c never exceeds a
+    if pb.k == "bin" and pb.op == "Mul":
+        for u, v in ((pb.a, pb.b), (pb.b, pb.a)):
+            pu = peel(u, through_try=False)
+            cands = [pu]
+            if pu.k == "call" and (pu.q in MIN_CALLS or pu.rq in MIN_CALLS):
+                cands = [peel(x, through_try=False) for x in pu.args]
+            for c_ in cands:
+                if c_.k == "bin" and c_.op == "Div" and (_same_expr(c_.a, pa) or _same_len_now(c_.a, pa)) and _same_expr(c_.b, v):
+                    return True
     # a = b' + c / b' * c (c >= 1) with b' == b
     if pa.k == "bin" and pa.op == "Add" and (_same_expr(pa.a, pb) or _same_expr(pa.b, pb)):
         return True
